@@ -9,31 +9,31 @@ def absTSampleA (g : SourceObserver) : St2 := .sample g.observer.isSome g.value
 def absTSampleB (g : SampleObserver) : St2 := .sample g.observer.isSome g.value
 
 theorem tieT_Sample_a_next (g : SourceObserver) (v : Val) :
-    (SourceObserver.next g v).map (fun r => (absTSampleA r.1, r.2)) = some (St2.step (absTSampleA g) .a (.next v)) := by
+    (SourceObserver.next g v).map (fun r => (absTSampleA r.1, r.2)) = some (Rs.lift (St2.step (absTSampleA g) .a (.next v))) := by
   rcases g with ⟨_ | _, w⟩ <;> rs_tie [SourceObserver.next, absTSampleA, St2.step, St2.guard]
 
 theorem tieT_Sample_a_error (g : SourceObserver) (e : Err) :
-    (SourceObserver.error g e).map (fun r => (absTSampleA r.1, r.2)) = some (St2.step (absTSampleA g) .a (.error e)) := by
+    (SourceObserver.error g e).map (fun r => (absTSampleA r.1, r.2)) = some (Rs.lift (St2.step (absTSampleA g) .a (.error e))) := by
   rcases g with ⟨_ | _, w⟩ <;>
     rs_tie [SourceObserver.error, Rx.Gen.RcObserver.RcObserver.error, absTSampleA, St2.step, St2.guard]
 
 theorem tieT_Sample_a_complete (g : SourceObserver) :
-    (SourceObserver.complete g).map (fun r => (absTSampleA r.1, r.2)) = some (St2.step (absTSampleA g) .a .complete) := by
+    (SourceObserver.complete g).map (fun r => (absTSampleA r.1, r.2)) = some (Rs.lift (St2.step (absTSampleA g) .a .complete)) := by
   rcases g with ⟨_ | _, w⟩ <;>
     rs_tie [SourceObserver.complete, Rx.Gen.RcObserver.RcObserver.complete, absTSampleA, St2.step, St2.guard]
 
 theorem tieT_Sample_b_next (g : SampleObserver) (v : Val) :
-    (SampleObserver.next g v).map (fun r => (absTSampleB r.1, r.2)) = some (St2.step (absTSampleB g) .b (.next v)) := by
+    (SampleObserver.next g v).map (fun r => (absTSampleB r.1, r.2)) = some (Rs.lift (St2.step (absTSampleB g) .b (.next v))) := by
   rcases g with ⟨_ | _, _ | w⟩ <;>
     rs_tie [SampleObserver.next, Rx.Gen.RcObserver.RcObserver.next, absTSampleB, St2.step, St2.guard]
 
 theorem tieT_Sample_b_error (g : SampleObserver) (e : Err) :
-    (SampleObserver.error g e).map (fun r => (absTSampleB r.1, r.2)) = some (St2.step (absTSampleB g) .b (.error e)) := by
+    (SampleObserver.error g e).map (fun r => (absTSampleB r.1, r.2)) = some (Rs.lift (St2.step (absTSampleB g) .b (.error e))) := by
   rcases g with ⟨_ | _, w⟩ <;>
     rs_tie [SampleObserver.error, Rx.Gen.RcObserver.RcObserver.error, absTSampleB, St2.step, St2.guard]
 
 theorem tieT_Sample_b_complete (g : SampleObserver) :
-    (SampleObserver.complete g).map (fun r => (absTSampleB r.1, r.2)) = some (St2.step (absTSampleB g) .b .complete) := by
+    (SampleObserver.complete g).map (fun r => (absTSampleB r.1, r.2)) = some (Rs.lift (St2.step (absTSampleB g) .b .complete)) := by
   rcases g with ⟨_ | _, _ | w⟩ <;>
     rs_tie [SampleObserver.complete, Rx.Gen.RcObserver.RcObserver.next, absTSampleB, St2.step, St2.guard]
 
